@@ -79,6 +79,10 @@ def worlds(tier: str, stats: Dict[str, Any]) -> Iterator[Any]:
         dict(steps=[[0, 40], [40, 80]], bwd=[[10, 30], [50, 70]]),
         dict(steps=[[0, 40], [40, 80]], bwd=[]),
         dict(steps=[], bwd=[[10, 30]]),
+        # three and four steps: two or three annotations survive the trimming of the trailing step
+        dict(steps=[[0, 40], [40, 80], [80, 120]], bwd=[]),
+        dict(steps=[[0, 40], [40, 80], [80, 120]], bwd=[[10, 30], [50, 70]]),
+        dict(steps=[[0, 30], [30, 60], [60, 90], [90, 120]], bwd=[]),
     ]
     bwd_ops = [[12, 6], [10, 20], [26, 8], [2, 6], [32, 6], [52, 6], [90, 5]]  # (start, dur) on the autograd thread
     for lay in ann_layouts:
@@ -89,6 +93,10 @@ def worlds(tier: str, stats: Dict[str, Any]) -> Iterator[Any]:
                 for variant in ("one-bwd", "two-bwd", "no-main-thread", "bwd-name-on-main"):
                     stats["transitions"] += 1
                     yield dict(mode="bwd", layout=lay, ops=[list(o) for o in ops], variant=variant)
+                    if variant == "one-bwd" and len(lay["steps"]) + len(lay["bwd"]) >= 2:
+                        # annotation records (and everything else) not in chronological order in the file
+                        stats["transitions"] += 1
+                        yield dict(mode="bwd", layout=lay, ops=[list(o) for o in ops], variant=variant, file_order="reversed")
 
 
 def build_tree_world(w) -> List[Dict[str, Any]]:
@@ -146,6 +154,8 @@ def build_bwd_world(w) -> List[Dict[str, Any]]:
         corr += 1
     if variant == "two-bwd" and len(w["ops"]) == 1:
         evs.append(kineto.cpu_op("autograd::engine::evaluate_function: OtherBackward", E0 + 14, 2, ext=30, tid=102))
+    if w.get("file_order") == "reversed":
+        evs = evs[:1] + evs[1:][::-1]
     return evs
 
 
